@@ -4,6 +4,7 @@ from __future__ import annotations
 import json
 from typing import Any, Dict, List, Tuple
 
+from harness.extract import request_callers as x_callers
 from harness.extract import request_core as x_core
 from harness.lib import scen
 from harness.lib.core import VERIF, Ctx, Rng, lean_lock, run_driver
@@ -54,7 +55,7 @@ MANIFEST = {
                  "regenerated tables and translated predicates; differential rigs and a contract search on live request trees",
     "design_ref": "5/C05",
 }
-MODULES = ["PrimaiteModel.Props.C05"]   # the static part (harness/props/c05x.py) adds C05Schema, C05Guards, C05Inst
+MODULES = ["PrimaiteModel.Props.C05", "PrimaiteModel.Props.C05Callers"]   # the static part (harness/props/c05x.py) adds C05Schema, C05Guards, C05Inst
 EXE = "drv_c05"
 QUICK_SCEN = ["data_manipulation", "basic_firewall", "basic_switched_network"]
 
@@ -479,6 +480,7 @@ def run(ctx: Ctx):
     t0 = time.time()
     with lean_lock():
         ctx.extract("RequestCore", x_core.emit)
+        ctx.extract(x_callers.GEN_NAME, x_callers.emit)   # Props/C05Callers: who calls the request layer, what becomes of a refusal
         ctx.prove(MODULES, exes=[EXE], leanchecker=ctx.thorough)
     ctx.cov["rule"] = ("requests = every route of the live tree (sampled in quick), route mutations (delete/misspell/truncate/append/swap), and "
                        "requests formed from every registered action type with parameters naming existing or missing components, at the "
